@@ -163,10 +163,15 @@ pub async fn run_conn_tls(
     'steps: for step in &plan.steps {
         match step {
             Step::Send { data, completes } => {
+                let belongs = completes.unwrap_or(cur_req);
                 if let Some(j) = completes {
                     cur_req = j + 1;
                 }
-                let _ = cur_req;
+                if let Some(x) = obs.start_seq.get_mut(belongs) {
+                    if x.is_none() {
+                        *x = Some(world.n_events());
+                    }
+                }
                 if let Err(e) = tls.write_all(&data.0).await {
                     obs.write_err = Some(e.kind());
                     break 'steps;
